@@ -55,11 +55,11 @@ CLAIMED = {
         note=E1 + " Outside: longer sequences, parser-internal ParserDerivationTree.", ref="DESIGN.md section 3 C10"),
     "C11": dict(
         technique="bounded symbolic execution of an evaluate/edit/evaluate history on long-lived constraint+evaluator objects vs separate objects with empty caches",
-        text="For 8 (thorough 29) constraint programs incl. nested rebinding quantifiers and every tree/edit in the bound: after evaluating tree A, the fitness, verdict, solved/total and failing trees reported for tree B (A with one leaf replaced - as a new tree or by editing the evaluated object in place) equal those of fresh objects. Look-alike trees: on an ambiguous grammar, two derivations of the same string evaluated one after the other by one Evaluator each get the verdict fresh objects give. Repeated evaluation of one tree by successive Evaluators sharing the constraint objects reports the same failing parts as fresh objects.",
+        text="For 4 (thorough 38) constraint programs incl. nested rebinding quantifiers and every tree/edit in the bound: after evaluating tree A, the fitness, verdict, solved/total and failing trees reported for tree B (A with one leaf replaced - as a new tree or by editing the evaluated object in place) equal those of fresh objects. Look-alike trees: on an ambiguous grammar, two derivations of the same string evaluated one after the other by one Evaluator each get the verdict fresh objects give. Repeated evaluation of one tree by successive Evaluators sharing the constraint objects reports the same failing parts as fresh objects.",
         note=E1 + " 'Fresh' objects are separate constraint objects with emptied caches. Outside: longer histories, soft constraints.", ref="DESIGN.md section 3 C11"),
     "C12": dict(
         technique="bounded symbolic execution of the real Parser (cache included) under a symbolic history of parse-type requests vs a fresh Parser",
-        text="For 5 grammars (one ambiguous) and every history of <= 2 (thorough 3) requests out of 9 kinds (first tree, full forest, abandoned iteration, unstarted generator, prefix mode first tree / all trees, other start symbol, mutation of returned trees at root/leaves) on words from a finite list (complete words and strict prefixes): the complete-mode forest, the first tree for another start symbol and the prefix-mode first tree and forest then served for a target word equal a fresh Parser's, origin_repetitions up to renaming. API level: what Fandango.parse yields does not depend on a symbolic history of earlier init_population calls with extra constraints.",
+        text="For 5 grammars (one ambiguous) and every history of <= 2 (thorough 3) requests (quick tier: the ambiguous grammar with one target word, the others with one request) out of 9 kinds (first tree, full forest, abandoned iteration, unstarted generator, prefix mode first tree / all trees, other start symbol, mutation of returned trees at root/leaves) on words from a finite list (complete words and strict prefixes): the complete-mode forest, the first tree for another start symbol and the prefix-mode first tree and forest then served for a target word equal a fresh Parser's, origin_repetitions up to renaming. API level: what Fandango.parse yields does not depend on a symbolic history of earlier init_population calls with extra constraints.",
         note=E1 + " Outside: hookin_parent requests, interleaving two live generators.", ref="DESIGN.md section 3 C12"),
     "C13": dict(
         technique="bounded symbolic execution of IterativeParser.consume per fragment with the word and every cut position symbolic",
